@@ -64,7 +64,7 @@ def assemble_csr(values, rowptr, colidx, ncols):
             all(colidx < ncols)):
         raise MatrixError('assemble received invalid column indices')
     colidx_is_increasing = numpy.empty((len(colidx)+1,), bool)
-    numpy.greater_equal(colidx[1:], colidx[:-1], out=colidx_is_increasing[1:-1])
+    numpy.greater(colidx[1:], colidx[:-1], out=colidx_is_increasing[1:-1])
     colidx_is_increasing[rowptr] = True
     if not colidx_is_increasing.all():
         raise MatrixError('column indices are not stricty increasing')
